@@ -26,6 +26,7 @@ type setExec struct {
 func newSetExec(r *Repo) (*setExec, error) {
 	it := newInterpFor(r, "set")
 	it.nilPanics = true
+	it.stepLimit = 20000 // the evaluated sets have at most a handful of intervals over a tiny universe
 	se := &setExec{it: it, methods: map[string]*ast.FuncDecl{}}
 	for fn, fd := range it.decls {
 		if fd.Recv == nil {
@@ -53,6 +54,7 @@ func newSetExec(r *Repo) (*setExec, error) {
 
 func (se *setExec) fresh() Value {
 	fd := se.newSet
+	se.it.steps = 0
 	res := se.it.invoke(nil, &Closure{name: "NewSet", typ: fd.Type, body: fd.Body, lit: fd, decl: fd, env: newEnv(nil)}, nil)
 	return res[0]
 }
@@ -157,6 +159,9 @@ func (b bits) str() string {
 	return "[" + strings.Join(p, " ") + "]"
 }
 func rangeBits(a, b int) bits {
+	if a > b {
+		return 0 // an inverted range denotes no code point
+	}
 	var r bits
 	for x := a; x <= b; x++ {
 		r |= 1 << uint(x)
@@ -169,6 +174,10 @@ type setOp struct{ b, e int } // AddRange(b,e); Add(b) when single
 func histName(h []setOp) string {
 	var p []string
 	for _, o := range h {
+		if o.b > o.e {
+			p = append(p, fmt.Sprintf("AddRange(%d,%d)", o.b, o.e))
+			continue
+		}
 		if o.b == o.e {
 			p = append(p, fmt.Sprintf("Add(%d)", o.b))
 		} else {
@@ -266,6 +275,28 @@ func bridgingHistories(n, k, extra int) [][]setOp {
 	return out
 }
 
+// invertedHistories: insertions of ranges whose begin lies above their end
+// (they denote nothing), alone, before and after proper insertions.
+func invertedHistories(n int) [][]setOp {
+	var inv, ok []setOp
+	for b := 1; b <= n; b++ {
+		for e := 0; e < b; e++ {
+			inv = append(inv, setOp{b, e})
+		}
+	}
+	for b := 0; b <= n; b += 2 {
+		ok = append(ok, setOp{b, b}, setOp{b, min(b+1, n)})
+	}
+	var out [][]setOp
+	for _, i := range inv {
+		out = append(out, []setOp{i})
+		for _, o := range ok {
+			out = append(out, []setOp{i, o}, []setOp{o, i}, []setOp{o, i, o})
+		}
+	}
+	return out
+}
+
 type setFinding struct {
 	Key  string // observer + failure kind (stable)
 	What string // first witness
@@ -280,6 +311,8 @@ func (se *setExec) observe(h []setOp, n int, report func(key, what string)) {
 				switch x := p.(type) {
 				case nilDeref:
 					report(op+" panics", fmt.Sprintf("%s.%s dereferences a nil pointer at %s", name, op, x.pos))
+				case goPanic:
+					report(op+" panics", fmt.Sprintf("%s.%s: %s at %s", name, op, x.msg, x.pos))
 				case undecided:
 					report("undecided", x.msg)
 				default:
@@ -335,9 +368,6 @@ func (se *setExec) observe(h []setOp, n int, report func(key, what string)) {
 		}
 	})
 	for limit := 0; limit <= n+1; limit++ {
-		if m&^rangeBits(0, limit) != 0 {
-			continue // the statement speaks of sets within [0, limit]
-		}
 		limit := limit
 		guard("Complement", func() {
 			want := rangeBits(0, limit) &^ m
@@ -362,8 +392,8 @@ func (se *setExec) observe(h []setOp, n int, report func(key, what string)) {
 			}
 			// usable as a set afterwards: complement twice
 			cc := se.call(cs, "Complement", int64(limit))
-			if got, _ := se.call(cc, "String").(string); got != m.str() {
-				report("Complement twice wrong", fmt.Sprintf("%s.Complement(%d).Complement(%d) holds %s, expected %s", name, limit, limit, got, m.str()))
+			if got, _ := se.call(cc, "String").(string); got != (m & rangeBits(0, limit)).str() {
+				report("Complement twice wrong", fmt.Sprintf("%s.Complement(%d).Complement(%d) holds %s, expected %s", name, limit, limit, got, (m & rangeBits(0, limit)).str()))
 				return
 			}
 			if got, _ := se.call(s, "String").(string); got != m.str() {
@@ -381,6 +411,8 @@ func (se *setExec) observe2(h1, h2 []setOp, n int, report func(key, what string)
 			switch x := p.(type) {
 			case nilDeref:
 				report("binary operation panics", fmt.Sprintf("an operation on a=%s, b=%s dereferences a nil pointer at %s", n1, n2, x.pos))
+			case goPanic:
+				report("binary operation panics", fmt.Sprintf("an operation on a=%s, b=%s: %s at %s", n1, n2, x.msg, x.pos))
 			case undecided:
 				report("undecided", x.msg)
 			default:
@@ -444,6 +476,7 @@ func setSemantics(r *Repo, n, k, k2 int) (map[string]string, int, error) {
 	}
 	hs := histories(n, k)
 	hs = append(hs, bridgingHistories(n+2, 3, 1)...)
+	hs = append(hs, invertedHistories(n)...)
 	if n >= 6 {
 		hs = append(hs, bridgingHistories(n, 3, 2)...)
 		hs = append(hs, bridgingHistories(n+3, 4, 1)...)
